@@ -91,7 +91,7 @@ func Layout(rt *rapid.T, o LayoutOpts) *Tree {
 		idxs := perDir[d]
 		pkgName := strings.ReplaceAll(path.Base(d), "-", "")
 		var types strings.Builder
-		fmt.Fprintf(&types, "package %s\n\ntype In struct {\n\tA int\n\tB string\n\tC []string\n}\n\ntype Out struct {\n\tA int\n\tB string\n\tC []string\n}\n\n", pkgName)
+		fmt.Fprintf(&types, "package %s\n\ntype Nested struct {\n\tN int\n}\n\ntype NestedOut struct {\n\tN int\n}\n\ntype In struct {\n\tA int\n\tB string\n\tC []string\n\tN Nested\n}\n\ntype Out struct {\n\tA int\n\tB string\n\tC []string\n\tN NestedOut\n}\n\n", pkgName)
 		fmt.Fprintf(&types, "type Color int\n\nconst (\n\tColorRed Color = iota\n\tColorBlue\n)\n\ntype Shade int\n\nconst (\n\tShadeRed Shade = iota\n\tShadeBlue\n)\n")
 		g.t.Files[d+"/types.go"] = types.String()
 		// split converters over one or two declaring files
